@@ -199,7 +199,8 @@ func (e *entry) Revision() uint64 { return e.rev }
 var siteNames = []string{"?", "attemptAcquire", "attemptPriorityTakeover", "heartbeatLoop", "validateToken",
 	"checkKeyAndReelect", "verifyLeadershipAfterReconnect", "StopWithContext", "watchLoop", "Start",
 	"attemptAcquireWithRetry", "handleWatchEvent", "validationLoop", "ValidateToken", "ValidateTokenOrDemote",
-	"Stop", "becomeLeader", "becomeFollower", "handleReconnect", "handleGracePeriodExpired", "handleDisconnect"}
+	"Stop", "becomeLeader", "becomeFollower", "handleReconnect", "handleGracePeriodExpired", "handleDisconnect",
+	"handleHeartbeatFailure", "handleHealthCheckFailure", "handleValidationFailure", "handleReconnectVerificationFailed"}
 
 func siteCode(fn string) int64 {
 	for i, n := range siteNames {
@@ -212,12 +213,12 @@ func siteCode(fn string) int64 {
 
 const libPrefix = "github.com/ali-assar/NATS-Leader-Election/leader."
 
-// callSite returns (inner, root): codes of the innermost and outermost library frames.
-func callSite() (int64, int64) {
+// libFrames lists the library functions on the calling goroutine's stack, innermost first.
+func libFrames() []string {
 	pcs := make([]uintptr, 48)
 	n := runtime.Callers(3, pcs)
 	frames := runtime.CallersFrames(pcs[:n])
-	inner, root := "", ""
+	var out []string
 	for {
 		f, more := frames.Next()
 		if strings.HasPrefix(f.Function, libPrefix) {
@@ -229,16 +230,45 @@ func callSite() (int64, int64) {
 			if i := strings.Index(name, "."); i >= 0 {
 				name = name[:i]
 			}
-			if inner == "" {
-				inner = name
-			}
-			root = name
+			out = append(out, name)
 		}
 		if !more {
 			break
 		}
 	}
-	return siteCode(inner), siteCode(root)
+	return out
+}
+
+// callSite returns (inner, root): codes of the innermost and outermost library frames.
+func callSite() (int64, int64) {
+	fr := libFrames()
+	if len(fr) == 0 {
+		return 0, 0
+	}
+	return siteCode(fr[0]), siteCode(fr[len(fr)-1])
+}
+
+// flagSite returns (cause, root) for a change of the leadership claim: the function that
+// called becomeLeader/becomeFollower (or Stop/StopWithContext themselves).
+func flagSite() (int64, int64) {
+	fr := libFrames()
+	if len(fr) == 0 {
+		return 0, 0
+	}
+	cause := ""
+	for i, f := range fr {
+		if f == "becomeLeader" || f == "becomeFollower" {
+			if i+1 < len(fr) {
+				cause = fr[i+1]
+			}
+			break
+		}
+		if f == "Stop" || f == "StopWithContext" {
+			cause = f
+			break
+		}
+	}
+	return siteCode(cause), siteCode(fr[len(fr)-1])
 }
 
 func gid() int64 {
